@@ -92,10 +92,24 @@ def main(pid, tier, seed):
         if rng.random() < 0.5:
             training += [words[0] + words[1]] * rng.choice([1, 5])       # a whole multi-word that may itself be a base word
         training += ['password', 'Password', 'passwordpass'] * rng.randint(0, 3)
-        histories.append((words, training, segment.Recorder(training)))
+        # letter runs that are NOT words of the history: runs shorter than four letters followed, after a non-letter, by
+        # another run (the two must not be glued into a word), runs cut by digits / symbols in the middle of a password
+        glue = []
+        for _ in range(rng.randint(1, 3)):
+            short = rng.choice(['my', 'i', 'abc', 'xy', 'the'])
+            w = rng.choice(words)
+            sep = rng.choice(['1', '!', ' ', '12', '_'])
+            training += [short + sep + w] * rng.choice([5, 6, 9])
+            glue.append(short + w)
+            if rng.random() < 0.5:
+                training += [w[:2] + sep + w[2:] + sep + short] * 5
+                glue.append(w)
+        histories.append((words, training, segment.Recorder(training), glue))
     for k in range(n_frag):
-        words, training, rec2 = histories[k % len(histories)]
+        words, training, rec2, glue = histories[k % len(histories)]
         pw = segment.random_password(rng, with_dotted_i=(k % 10 == 0))
+        if rng.random() < 0.08:
+            pw = rng.choice(glue) + rng.choice(words + [''])          # starts with letters that were never one word
         if rng.random() < 0.35:
             parts = [rng.choice(words) for _ in range(rng.choice([2, 2, 3]))]
             parts = [p if rng.random() < 0.6 else rng.choice([p.capitalize(), p.upper()]) for p in parts]
